@@ -345,9 +345,25 @@ class Gen:
                         cases.append(("bad-req" if side == "req" else "bad-res", version, [mine], raw, info))
         return cases
 
+    def stratum_all_actions(self):
+        """every action of both versions once: a valid request (every optional present), a valid result, handler and hook
+        registered through the member of the Action enumeration that carries the action's name"""
+        cases = []
+        for version in ("1.6", "2.0.1"):
+            for n, action in enumerate(sorted(self.actions[version])):
+                reqs = [i for i in self.instances(version, action, "req") if not i[2] and isinstance(i[1], dict)]
+                resps = [i for i in self.instances(version, action, "resp") if not i[2] and isinstance(i[1], dict)]
+                if not reqs or not resps:
+                    continue
+                r = self.route(action, ("ret", snake(resps[0][1])), after=("ret",), is_async=bool(n % 2), after_async=bool(n % 3 == 0))
+                r["by_enum"] = True
+                cases.append(("ok", version, [r], self.frame("all-%d" % n, action, reqs[0][1])))
+        return cases
+
     def all_cases(self):
         full = self.tier == "thorough"
         cases = self.stratum_handled("all" if full else 14)
+        cases += self.stratum_all_actions()
         cases += self.stratum_unhandled(full)
         cases += self.stratum_frames()
         return cases
@@ -364,6 +380,8 @@ def _at(inst, path):
 
 
 def _jtype(v):
+    if isinstance(v, list) and v:
+        return "list[%s]" % type(v[0]).__name__
     return "absent" if v is KeyError else type(v).__name__
 
 
